@@ -70,6 +70,17 @@ func c15Check(env *core.Env, cc core.Case) core.Verdict {
 	if err := tree.Write(root); err != nil {
 		return core.Incon("cannot write tree: %v", err)
 	}
+	// symbolic links inside the walked directories that lead to directories beside them whose names merely start
+	// like the walked directory (crs -> crs-plugins, regex-assembly -> regex-assembly-attic, tests -> tests-disabled):
+	// a walk does not follow them, and what lies there is not part of the tree
+	_ = (sut.Tree{
+		"../" + rootName + "-plugins/extra-plugin.conf":   "# OWASP CRS ver.1.0.0\nSecRule ARGS \"@rx plugin\" \\\n    \"id:9500100,\\\n    ver:'OWASP_CRS/1.0.0'\"\n",
+		"linked-plugins":                                  sut.SymlinkPrefix + "../" + rootName + "-plugins",
+		"regex-assembly-attic/932100.ra":                  "      kept from an older release\n   not\tformatted\n",
+		"regex-assembly/attic":                            sut.SymlinkPrefix + "../regex-assembly-attic",
+		"tests/regression/tests-disabled/920100.yaml":     "  - test_id: 9\n  - test_id: 4\n\n\n",
+		"tests/regression/tests/REQUEST-DISABLED":         sut.SymlinkPrefix + "../tests-disabled",
+	}).Write(root)
 	sandbox := filepath.Dir(root)
 	targets := c.Proj.targets()
 	if len(targets) == 0 {
@@ -386,7 +397,7 @@ func init() {
 	register(&core.Property{
 		ID:    "C15",
 		Level: "exploration",
-		Rule: "generated CRS trees (1..3 rules files, assembly files with includes/definitions/stored names, test files, setup example) with ~25 decoys (near-miss extensions and names such as 932100.ra.bak, 9321000.yaml, 920110 without extension, *.conf~, notes.example.txt, README files containing marker text, a sibling directory outside the root with rules/assembly/test files, and the same in the directory above the root, so that the root is nested in something that looks like another root; a third of the runs use a root directory named crs[12] next to directories crs1 and crs2 that hold files every command would rewrite, a sixth a root named crs\\w next to a complete copy of the tree in crsw) x 38 inspecting command lines (generate file/stdin/missing, compare single/--all/github, format --check single/--all/github, renumber-tests --check single/--all/github, version, completion for 4 shells, help, failing invocations, --check and single-target runs on missing targets and on decoys that only resemble a target, --check on a file that triggers the upper-case lint, update-copyright and renumber-tests with -d at a directory that lies in no root) and 13 rewriting ones (format single/include/--all, format of an include file and of a rule file from a working directory that holds a file of the same name, update single/--all, the same with a backup copy of the rules file that matches the same glob and sorts in front of it, renumber-tests single/--all, update-copyright) x -d at the root, 1..2 levels below, or at a directory inside the root whose name starts like the assembly directory (regex-assembly-old, regex-assembly.bak) and holds assembly files; for format --all and update --all half of the trees keep the assembly directory behind a relative link while the command is started in a directory from which that relative path leads to the assembly directory of another checkout. Two thirds of the runs get the environment of a GitHub workflow (GITHUB_ACTIONS, GITHUB_STEP_SUMMARY / GITHUB_OUTPUT / GITHUB_ENV naming files inside the sandbox), half of those a temporary directory on another file system. Every run is traced with strace -f (file-related and attribute system calls). " +
+		Rule: "generated CRS trees (1..3 rules files, assembly files with includes/definitions/stored names, test files, setup example) with ~25 decoys (near-miss extensions and names such as 932100.ra.bak, 9321000.yaml, 920110 without extension, *.conf~, notes.example.txt, README files containing marker text, symbolic links inside the walked directories to directories beside them whose names start like the walked one, a sibling directory outside the root with rules/assembly/test files, and the same in the directory above the root, so that the root is nested in something that looks like another root; a third of the runs use a root directory named crs[12] next to directories crs1 and crs2 that hold files every command would rewrite, a sixth a root named crs\\w next to a complete copy of the tree in crsw) x 38 inspecting command lines (generate file/stdin/missing, compare single/--all/github, format --check single/--all/github, renumber-tests --check single/--all/github, version, completion for 4 shells, help, failing invocations, --check and single-target runs on missing targets and on decoys that only resemble a target, --check on a file that triggers the upper-case lint, update-copyright and renumber-tests with -d at a directory that lies in no root) and 13 rewriting ones (format single/include/--all, format of an include file and of a rule file from a working directory that holds a file of the same name, update single/--all, the same with a backup copy of the rules file that matches the same glob and sorts in front of it, renumber-tests single/--all, update-copyright) x -d at the root, 1..2 levels below, or at a directory inside the root whose name starts like the assembly directory (regex-assembly-old, regex-assembly.bak) and holds assembly files; for format --all and update --all half of the trees keep the assembly directory behind a relative link while the command is started in a directory from which that relative path leads to the assembly directory of another checkout. Two thirds of the runs get the environment of a GitHub workflow (GITHUB_ACTIONS, GITHUB_STEP_SUMMARY / GITHUB_OUTPUT / GITHUB_ENV naming files inside the sandbox), half of those a temporary directory on another file system. Every run is traced with strace -f (file-related and attribute system calls). " +
 			"Oracle: inspecting commands perform no successful write-class system call (open for writing/creating, unlink, rename, mkdir, chmod, truncate, link ...; /dev/null excepted) and leave the sandbox snapshot (root plus outside sibling) identical; rewriting commands change only paths allowed by a path model written from the statement, perform no write-class call outside the root or on a pre-existing non-target. Non-trivial = every traced run; distinct by (tree, command, -d).",
 		Cases: func(env *core.Env, rng *rand.Rand) []core.Case {
 			trees := env.N(10, 80)
